@@ -150,12 +150,13 @@ fn c10_entries_match_the_byte_classes() {
 }
 
 /// outcome of running the VM in strict mode: (error payload names, stored states, per-offset visit totals), None on a panic
-fn vm_outcome(code: &[u8]) -> Option<(Vec<String>, usize, Vec<usize>)> {
+fn vm_outcome(code: &[u8]) -> Option<(Vec<String>, usize, Vec<usize>)> { vm_outcome_mode(code, false) }
+fn vm_outcome_mode(code: &[u8], permissive: bool) -> Option<(Vec<String>, usize, Vec<usize>)> {
     use storage_layout_extractor::{vm::{Config, VM}, watchdog::LazyWatchdog};
     let c = code.to_vec();
     catch_unwind(move || {
         let is = InstructionStream::try_from(c.as_slice()).ok()?;
-        let mut vm = VM::new(is, Config::default(), LazyWatchdog.in_rc()).ok()?;
+        let mut vm = VM::new(is, Config::default().with_permissive_errors(permissive), LazyWatchdog.in_rc()).ok()?;
         let errs = match vm.execute() { Ok(()) => vec![], Err(e) => e.payloads().iter().map(|x| format!("{:?}", x.payload).chars().take(60).collect()).collect() };
         let res = vm.consume();
         let visits = (0..c.len() as u32).map(|ip| res.states.iter().map(|st| st.visited_instructions().visit_count(ip).unwrap_or(0)).sum()).collect();
@@ -203,4 +204,38 @@ fn c10_unassigned_bytes_and_cut_pushes_execute_as_invalid() {
         }
     }
     println!("CASES c10_exec_as_invalid {cases}");
+}
+
+/// "bytes that are push immediates are never instructions (and so never jump destinations)", at execution level and in both
+/// error modes: a JUMP / JUMPI whose constant target is an immediate byte (0x5b) of a COMPLETE PUSHn never transfers
+/// control there — neither the immediate bytes nor the code behind them are executed
+#[test]
+fn c10_jumps_never_land_on_push_immediates() {
+    std::panic::set_hook(Box::new(|_| {}));
+    let mut cases = 0;
+    for n in [1usize, 2, 5, 32] {
+        for which in 0..n.min(3) {
+            for jumpi in [false, true] {
+                for permissive in [false, true] {
+                    // [PUSH1 1]? PUSH1 t JUMP|JUMPI STOP PUSHn 5b.. ; PUSH1 1 PUSH1 0 SSTORE STOP
+                    let mut code: Vec<u8> = if jumpi { vec![0x60, 0x01] } else { vec![] };
+                    code.extend([0x60, 0x00]);
+                    let jump_at = code.len();
+                    code.extend([if jumpi { 0x57 } else { 0x56 }, 0x00, 0x5f + n as u8]);
+                    let first_imm = code.len();
+                    code.extend(std::iter::repeat(0x5b).take(n));
+                    let behind = code.len();
+                    code.extend([0x60, 0x01, 0x60, 0x00, 0x55, 0x00]);
+                    code[jump_at - 1] = (first_imm + which) as u8;
+                    cases += 1;
+                    let Some((_, _, visits)) = vm_outcome_mode(&code, permissive) else { continue };
+                    let bad: Vec<usize> = (first_imm - 1..code.len()).filter(|&o| visits[o] > 0).collect();
+                    if !bad.is_empty() {
+                        witness("C10", "dis.immediates_are_never_jump_destinations", format!("{} to offset {} (immediate of a complete PUSH{n}), permissive={permissive}: {code:02x?}", if jumpi { "JUMPI" } else { "JUMP" }, first_imm + which), format!("executed offsets {bad:?} (the code behind the push starts at {behind})"), "none of them: push data is not a jump destination".into());
+                    }
+                }
+            }
+        }
+    }
+    println!("CASES c10_jump_into_immediates {cases}");
 }
